@@ -110,16 +110,36 @@ func install(root, dir string, c Case) (string, error) {
 	if err := os.MkdirAll(dir, 0o755); err != nil {
 		return "", err
 	}
-	so, ok1 := soByName[c.Stdout]
+	so, ok1 := kindOf(c)
 	se, ok2 := seByName[c.Stderr]
 	if !ok1 || !ok2 {
-		return "", fmt.Errorf("unknown stdout/stderr kind %q/%q", c.Stdout, c.Stderr)
+		return "", fmt.Errorf("unknown stdout/stderr kind %q/%q (plugin %q announcing %q)", c.Stdout, c.Stderr, c.Plug, c.Announce)
+	}
+	if (c.Plug != "" || c.Announce != "" || isSignalExit(c.Exit)) && c.Timing != tImmediate {
+		return "", fmt.Errorf("file-name family and deaths by signal exist only with timing %q", tImmediate)
 	}
 	big := c.BigMiB
 	if big == 0 {
 		big = 65
 	}
-	path := filepath.Join(dir, "notation-"+pluginName)
+	path := filepath.Join(dir, "notation-"+c.plug())
+	if isSignalExit(c.Exit) {
+		// a plugin that writes both streams completely and then dies by the named signal (plugbin has no knob for it)
+		if so.Pad || so.Garbage || se.Pad || strings.Contains(stdoutText(c, so)+se.Text, "'") {
+			return "", fmt.Errorf("unsupported stream kind for the sh plugin that dies by a signal")
+		}
+		sig := strings.TrimPrefix(c.Exit, "sig:")
+		for _, r := range sig {
+			if r < 'A' || r > 'Z' {
+				return "", fmt.Errorf("exit %q", c.Exit)
+			}
+		}
+		script := "#!/bin/sh\n# generated by the C17 harness\nulimit -c 0 2>/dev/null\n" +
+			"printf '%s' '" + stdoutText(c, so) + "'\n" +
+			"printf '%s' '" + se.Text + "' >&2\n" +
+			"kill -s " + sig + " $$\nsleep 1\nexit 0\n"
+		return path, writeFileNoFork(path, []byte(script), 0o755)
+	}
 	if isSh(c.Timing) {
 		sleeper := filepath.Join(dir, "sleeper")
 		if err := os.Link(filepath.Join(root, "plugbin"), sleeper); err != nil {
@@ -197,7 +217,7 @@ func install(root, dir string, c Case) (string, error) {
 	if err := os.Link(filepath.Join(root, "plugbin"), path); err != nil {
 		return "", err
 	}
-	b := behaviour{Stdout: so.Text(c.Cmd), Stderr: se.Text}
+	b := behaviour{Stdout: stdoutText(c, so), Stderr: se.Text}
 	if so.Pad {
 		b.StdoutPad = big << 20
 	}
@@ -236,6 +256,25 @@ func install(root, dir string, c Case) (string, error) {
 	cfg := map[string]any{"name": pluginName, "commands": map[string]behaviour{c.Cmd: b}}
 	j, _ := json.Marshal(cfg)
 	return path, os.WriteFile(path+".json", j, 0o644)
+}
+
+// stdoutText is what the plugin of a case prints on stdout: the kind's text; in the file-name family the metadata
+// reply announces Case.Announce ("meta-announces") or, for the plain honest kind, the plugin's own name.
+func stdoutText(c Case, so soKind) string {
+	if c.Cmd == "get-plugin-metadata" && (c.Plug != "" || c.Announce != "") {
+		name := ""
+		switch so.Name {
+		case soAnnounces:
+			name = c.Announce
+		case "valid":
+			name = c.plug()
+		default:
+			return so.Text(c.Cmd)
+		}
+		q, _ := json.Marshal(name)
+		return metaJSON(map[string]string{"name": string(q)})
+	}
+	return so.Text(c.Cmd)
 }
 
 var largePad = strings.Repeat("x", 1<<20)
@@ -278,7 +317,7 @@ func decodedAsExpected(c Case, resp any) bool {
 		if !ok || m == nil {
 			return false
 		}
-		w := fw.GetMetadataResponse{Name: pluginName, Description: "scripted plugin", Version: "1.0.0", URL: "https://example.com/c17",
+		w := fw.GetMetadataResponse{Name: c.plug(), Description: "scripted plugin", Version: "1.0.0", URL: "https://example.com/c17",
 			SupportedContractVersions: []string{"1.0"}, Capabilities: []fw.Capability{fw.CapabilitySignatureGenerator}}
 		if k := soByName[c.Stdout]; k.Versions != nil {
 			w.SupportedContractVersions = k.Versions
@@ -336,7 +375,7 @@ func decodedAsExpected(c Case, resp any) bool {
 }
 
 // metaProblem inspects the metadata RETURNED by a successful GetMetadata.
-func metaProblem(resp any) string {
+func metaProblem(resp any, plug string) string {
 	m, ok := resp.(*fw.GetMetadataResponse)
 	if !ok || m == nil {
 		return "nil-response"
@@ -354,7 +393,7 @@ func metaProblem(resp any) string {
 		return "capabilities"
 	case len(m.SupportedContractVersions) == 0:
 		return "supportedContractVersions"
-	case m.Name != pluginName:
+	case m.Name != plug:
 		return "name-mismatch"
 	}
 	for _, v := range m.SupportedContractVersions {
@@ -445,12 +484,21 @@ func runCase(root, id string, c Case) (res result) {
 		killMarked(marker)
 		_ = os.RemoveAll(dir)
 	}()
-	path, err := install(root, dir, c)
+	// file-name family: the executable lies in a directory that bears the ANNOUNCED name (collision by construction:
+	// only the file name tells the plugin's name; for the honest rows this is the layout of CLIManager)
+	pdir := dir
+	if c.Plug != "" || c.Announce != "" {
+		pdir = filepath.Join(dir, c.plug())
+		if c.Announce != "" && !strings.ContainsAny(c.Announce, "/\x00") && c.Announce != "." && c.Announce != ".." {
+			pdir = filepath.Join(dir, c.Announce)
+		}
+	}
+	path, err := install(root, pdir, c)
 	if err != nil {
 		res.Setup = "install: " + err.Error()
 		return
 	}
-	p, err := plugin.NewCLIPlugin(context.Background(), pluginName, path)
+	p, err := plugin.NewCLIPlugin(context.Background(), c.plug(), path)
 	if err != nil {
 		res.Setup = "NewCLIPlugin: " + err.Error()
 		return
@@ -597,7 +645,7 @@ func fillResult(c Case, out callOut, res *result) {
 	} else {
 		res.DecodedOK = decodedAsExpected(c, out.resp)
 		if c.Cmd == "get-plugin-metadata" {
-			res.MetaProblem = metaProblem(out.resp)
+			res.MetaProblem = metaProblem(out.resp, c.plug())
 		}
 	}
 }
